@@ -1471,9 +1471,27 @@ doneTest:
 		for _, call := range ir.Calls(v) {
 			if f := ir.Static(call); f != nil && fam[f.Name()] == f {
 				declares = true
+				// on every path
+				for _, r := range ir.Returns(v) {
+					if call.Block() != r.Block() && !call.Block().Dominates(r.Block()) {
+						declares = false
+					}
+				}
 			}
 		}
-		c.Check(stored && declares, Q(v), v.Pos(), "declares the option through the ordinary declaration path and records it", "Version() does not declare its option through the declaration family and record it")
+		// the record is stored on every path as well
+		ir.Instrs(v, func(in ssa.Instruction) {
+			if st, ok := in.(*ssa.Store); ok {
+				if _, f, isF := ir.FieldAddr(st.Addr); isF && f == "version" {
+					for _, r := range ir.Returns(v) {
+						if st.Block() != r.Block() && !st.Block().Dominates(r.Block()) {
+							stored = false
+						}
+					}
+				}
+			}
+		})
+		c.Check(stored && declares, Q(v), v.Pos(), "declares the option through the ordinary declaration path and records it, unconditionally", "Version() does not (always) declare its option through the declaration family and record it")
 	}
 }
 
@@ -1580,6 +1598,9 @@ func cmd5first(c *Ctx, fn *ssa.Function) {
 			if sl, h, isR := rangeElemHeader(other); isR && sl == ssa.Value(set) {
 				good = true
 				setLoop = h
+				if _, entry, _ := loopBody(h); entry != nil && entry != bo.Block() && ir.Reach(entry, map[*ssa.BasicBlock]bool{bo.Block(): true}, nil)[h] {
+					problems = append(problems, "an element of the set can be passed over without being compared with args[0]")
+				}
 			}
 		})
 		if !good {
@@ -1636,6 +1657,13 @@ func lenOnlyZeroEdgesP(fn *ssa.Function, is func(ssa.Value) bool) []ir.Edge {
 	ir.Instrs(fn, func(in ssa.Instruction) {
 		bo, ok := in.(*ssa.BinOp)
 		if !ok {
+			return
+		}
+		// a string compared with "": empty on the true edge of ==, on the false edge of !=
+		if sv, isS := ir.ConstString(bo.Y); isS && sv == "" && (bo.Op == token.EQL || bo.Op == token.NEQ) && is(bo.X) {
+			for _, e := range ir.EdgesWhere(fn, bo, bo.Op == token.EQL) {
+				out = append(out, ir.Edge{From: e.From, To: e.To})
+			}
 			return
 		}
 		k, isC := ir.ConstInt(bo.Y)
@@ -2261,6 +2289,40 @@ func cmd7(c *Ctx) {
 				ok, why = false, "true without the token being equal to one of the command's aliases"
 			}
 		}
+		// false only once every alias was compared: no alias passed over, no other way to `false`
+		ir.Instrs(ia, func(in ssa.Instruction) {
+			bo, isBo := in.(*ssa.BinOp)
+			if !isBo || (bo.Op != token.EQL && bo.Op != token.NEQ) {
+				return
+			}
+			var other ssa.Value
+			if bo.X == ssa.Value(ia.Params[1]) {
+				other = bo.Y
+			} else if bo.Y == ssa.Value(ia.Params[1]) {
+				other = bo.X
+			}
+			if other == nil {
+				return
+			}
+			sl, h, isR := rangeElemHeader(other)
+			if !isR || h == nil {
+				return
+			}
+			_, entry, exit := loopBody(h)
+			if entry != nil && entry != bo.Block() && ir.Reach(entry, map[*ssa.BasicBlock]bool{bo.Block(): true}, nil)[h] {
+				ok, why = false, "an alias can be passed over without being compared with the token"
+			}
+			cut := map[ir.Edge]bool{{From: h, To: exit}: true}
+			for _, e := range lenOnlyZeroEdgesLike(ia, sl) {
+				cut[e] = true
+			}
+			reach := ir.Reach(ia.Blocks[0], nil, cut)
+			for _, r := range ir.ReturnWays(ia) {
+				if b, isC := ir.ConstBool(r.Results[0]); isC && !b && r.ReachableUnder(reach, cut) {
+					ok, why = false, "false can be returned before every alias was compared with the token"
+				}
+			}
+		})
 		c.Check(ok && sawTrue, Q(ia), ia.Pos(), "true iff the token equals one of the command's aliases (all are compared)", why)
 	} else {
 		c.Undecided("anchor:Cmd.isAlias", token.NoPos, "not found")
@@ -2279,6 +2341,30 @@ func cmd7(c *Ctx) {
 			}
 		})
 		c.Check(ok, Q(cm)+":aliases", cm.Pos(), "every blank-separated word of the name is an alias", "aliases are not strings.Fields(name)")
+		// the new command is always added to the receiver's list
+		okReg := false
+		ir.Instrs(cm, func(in ssa.Instruction) {
+			st, isSt := in.(*ssa.Store)
+			if !isSt {
+				return
+			}
+			b, f, isF := ir.FieldAddr(st.Addr)
+			if !isF || f != "commands" || b != ssa.Value(cm.Params[0]) {
+				return
+			}
+			if base, _, isApp := appendedSingle(st.Val); !isApp {
+				return
+			} else if bb, bf, isBF := ir.FieldLoad(base); !isBF || bf != "commands" || bb != ssa.Value(cm.Params[0]) {
+				return
+			}
+			okReg = true
+			for _, r := range ir.Returns(cm) {
+				if st.Block() != r.Block() && !st.Block().Dominates(r.Block()) {
+					okReg = false
+				}
+			}
+		})
+		c.Check(okReg, Q(cm)+":registers", cm.Pos(), "the new command is appended to the receiver's list on every path", "Command can return without having added the sub-command to the receiver's list")
 	}
 }
 
@@ -2845,6 +2931,14 @@ func cmd12(c *Ctx) {
 				}
 				if !okP {
 					problems = append(problems, "the sub-command does not inherit the parent's ErrorHandling")
+				}
+			}
+			if fn.Signature.Recv() == nil {
+				// the constructor hands its literal out on every path
+				for _, r := range ir.ReturnPoints(fn) {
+					if len(r.Results) == 1 && ir.IsNilConst(r.Results[0]) {
+						problems = append(problems, "the constructor can return nil instead of the application it was asked for")
+					}
 				}
 			}
 			if len(problems) > 0 {
